@@ -167,6 +167,46 @@ func c02HTML(s *flScn) string {
 				}
 				fmt.Fprintf(&b, `<p>%s <span style="%s">%s</span></p>`, w(1), st, strings.Join(ws, " "))
 			}
+		case "glue":
+			// adjacent inline boxes without break opportunity between them (2n+2 words):
+			// <span>w1 .. wa </span><span>w(a+1) .. w(tot-1)</span>w(tot)
+			st := [...]string{"", "", "padding:0 1px"}[it.Opt]
+			tot := 2*it.N + 2
+			a := tot - 3
+			if it.Opt == 1 {
+				// a short first line, so that the second line starts inside the first inline box
+				a = 2
+				fmt.Fprintf(&b, `<p style="text-indent:%dpx"><span>`, (s.Cfg.W-5)*8)
+			} else {
+				b.WriteString("<p><span>")
+			}
+			for k := 1; k <= a; k++ {
+				b.WriteString(w(k) + " ")
+			}
+			b.WriteString("</span><span style=\"" + st + "\">")
+			for k := a + 1; k < tot; k++ {
+				if k > a+1 {
+					b.WriteString(" ")
+				}
+				b.WriteString(w(k))
+			}
+			b.WriteString("</span>" + w(tot) + "</p>")
+		case "stack":
+			// an inline box that roots a stacking context and ends with a nested inline box
+			st := [...]string{"position:relative", "opacity:0.5", "position:relative;z-index:1;top:1px"}[it.Opt]
+			switch {
+			case it.N == 1:
+				fmt.Fprintf(&b, `<p><span style="%s"><b>%s</b></span></p>`, st, w(1))
+			case it.N == 2:
+				fmt.Fprintf(&b, `<p><span style="%s">%s <b>%s</b></span></p>`, st, w(1), w(2))
+			default:
+				var mid []string
+				for k := 2; k < it.N-1; k++ {
+					mid = append(mid, w(k))
+				}
+				mid = append(mid, "<b>"+w(it.N-1)+"</b>")
+				fmt.Fprintf(&b, `<p>%s <span style="%s">%s</span> %s</p>`, w(1), st, strings.Join(mid, " "), w(it.N))
+			}
 		default:
 			b.WriteString("<p>unknownkind</p>")
 		}
@@ -182,6 +222,12 @@ func c02HTML(s *flScn) string {
 }
 
 var c02TokRe = regexp.MustCompile(`^a(\d+)([whfxr])(\d+)$`)
+
+// words of a text: tokens may be glued to each other (adjacent inline boxes); whatever is not a token is kept as a word
+// of its own, so that it shows as unknown text
+var c02SplitRe = regexp.MustCompile(`a\d+[whfxr]\d+|[^\sa]+|a`)
+
+func c02Words(s string) []string { return c02SplitRe.FindAllString(s, -1) }
 
 func c02Tok(word string) flTok {
 	m := c02TokRe.FindStringSubmatch(word)
@@ -201,7 +247,7 @@ func c02Main(args []string) int {
 			return
 		}
 		doc := c02HTML(&s)
-		pages, err := drv.Layout(doc, &drv.Opts{Engine: c02Engine})
+		pages, r, err := drv.RenderPages(doc, &drv.Opts{Engine: c02Engine})
 		if err != nil {
 			out.Fatal(err.Error())
 			return
@@ -223,7 +269,7 @@ func c02Main(args []string) int {
 			toks[pi] = []flTok{}
 			drv.Walk(p, func(bx boxes.Box, _ int) bool {
 				if tb, ok := bx.(*boxes.TextBox); ok {
-					for _, wd := range strings.Fields(tb.TextS()) {
+					for _, wd := range c02Words(tb.TextS()) {
 						laid[pi] = append(laid[pi], wd)
 						toks[pi] = append(toks[pi], c02Tok(wd))
 					}
@@ -236,11 +282,6 @@ func c02Main(args []string) int {
 		}
 		out.Emit(map[string]interface{}{"doc": s.Doc, "cfg": s.Cfg, "pages": toks, "kinds": strings.Join(ks, "+")})
 
-		_, r, err := drv.Render(doc, &drv.Opts{Engine: c02Engine})
-		if err != nil {
-			out.Fatal(err.Error())
-			return
-		}
 		drawn := make([][]string, len(pages))
 		bad := false
 		for _, e := range r.Evs {
@@ -252,7 +293,7 @@ func c02Main(args []string) int {
 					bad = true
 					continue
 				}
-				drawn[e.Page] = append(drawn[e.Page], strings.Fields(string(t))...)
+				drawn[e.Page] = append(drawn[e.Page], c02Words(string(t))...)
 			}
 		}
 		for pi := range pages {
